@@ -124,7 +124,14 @@ def potable(ini_text, args=(), want_output=True, binary=False, name='model.aspot
     with open(cfg, 'w') as f:
         f.write(ini_text)
     out = os.path.join(d, 'OUT')
-    if prefill:
+    real = None
+    if prefill == 'symlink':
+        # OUTPUT_FILE is a symbolic link to a (longer, older) file shared with another directory
+        real = os.path.join(d, 'shared-table.real')
+        with open(real, 'w') as f:
+            f.write(PREFILL)
+        os.symlink(real, out)
+    elif prefill:
         content = PREFILL if prefill is True else prefill
         with open(out, 'wb' if isinstance(content, bytes) else 'w') as f:
             f.write(content)
@@ -149,6 +156,9 @@ def potable(ini_text, args=(), want_output=True, binary=False, name='model.aspot
     finally:
         sys.argv = old_argv
     exists = os.path.exists(out)
+    link_replaced = real is not None and not os.path.islink(out)
+    if link_replaced:
+        out = real           # what the other users of the shared file see
     data = None
     if exists:
         with open(out, 'rb') as f:
@@ -156,4 +166,6 @@ def potable(ini_text, args=(), want_output=True, binary=False, name='model.aspot
         if not binary:
             data = data.decode('utf-8', 'replace')
     shutil.rmtree(d, True)
-    return PotableResult(status, so.getvalue(), se.getvalue(), exists, data, exc)
+    res = PotableResult(status, so.getvalue(), se.getvalue(), exists, data, exc)
+    res.link_replaced = link_replaced
+    return res
